@@ -28,7 +28,7 @@ Section Run.
   Definition chk (c : N * list spec_float * list spec_float) : N :=
     let '(op, i, o) := c in
     let '(rl, rh) := apply_op op (ofSF (nthsf i 0)) (ofSF (nthsf i 1)) (ofSF (nthsf i 2)) (ofSF (nthsf i 3)) in
-    if sf_eqb (toSF rl) (nthsf o 0) && sf_eqb (toSF rh) (nthsf o 1) then N.succ op else 0%N.
+    if sf_eqb (toSF rl) (toSF (ofSF (nthsf o 0))) && sf_eqb (toSF rh) (toSF (ofSF (nthsf o 1))) then N.succ op else 0%N.
   Definition show (c : N * list spec_float * list spec_float) : list spec_float :=
     let '(op, i, o) := c in
     let '(rl, rh) := apply_op op (ofSF (nthsf i 0)) (ofSF (nthsf i 1)) (ofSF (nthsf i 2)) (ofSF (nthsf i 3)) in
